@@ -130,6 +130,16 @@ def playback(tmp, hname, fargs, timeout=600):
         body = src[k:src.find('kani::concrete_playback_run', k)]
         for cm, by in re.findall(r'//\s*(.*)\n\s*vec!\[([^\]]*)\]', body):
             vals.append({'decoded': cm.strip(), 'bytes': [int(x) for x in by.split(',') if x.strip()]})
+    if '--features' in fargs:
+        # the crate's own unit tests need serde_json (not a dependency, not available offline) when the serde feature is
+        # on; they are irrelevant for the replay, so their modules are switched off in the scratch copy (test code only)
+        for fn in os.listdir(os.path.join(tmp, 'src')):
+            if fn.endswith('.rs') and not fn.startswith('verif_kani'):
+                pth = os.path.join(tmp, 'src', fn)
+                t = open(pth).read()
+                t2 = re.sub(r'#\[cfg\(test\)\]\s*\nmod tests', '#[cfg(any())]\nmod tests', t)
+                if t2 != t:
+                    open(pth, 'w').write(t2)
     try:
         q = subprocess.run(['cargo', 'kani', 'playback', '-Z', 'concrete-playback'] + fargs + ['--', test],
                            cwd=tmp, stdout=subprocess.PIPE, stderr=subprocess.STDOUT, universal_newlines=True, timeout=timeout,
